@@ -1,15 +1,45 @@
 #!/venv/bin/python
-"""Print the markdown table of confirmed seeded changes (DESIGN.md section 15)."""
+"""Markdown table of the confirmed seeded changes (DESIGN.md section 15).
+
+    tools/seeded_table.py            print the table
+    tools/seeded_table.py --update   replace the text between the SEEDED-TABLE markers in DESIGN.md
+"""
 import glob
 import json
 import os
+import sys
 
 ROOT = os.path.dirname(os.path.dirname(os.path.abspath(__file__)))
-print("| id | breaks | change (author's summary, shortened) | needs | detected by |")
-print("|---|---|---|---|---|")
-for d in sorted(glob.glob(os.path.join(ROOT, "seeded", "*"))):
-    m = json.load(open(os.path.join(d, "meta.json")))
-    s = (m.get("summary") or "").replace("\n", " ").replace("|", "/")
-    n = (m.get("needs_to_manifest") or "").replace("\n", " ").replace("|", "/")
-    det = ", ".join(m.get("detected_by") or []) or "MISSED"
-    print("| %s | %s | %s | %s | %s |" % (os.path.basename(d), m.get("breaks_property"), s[:160], n[:160], det))
+BEGIN, END = "<!-- SEEDED-TABLE-BEGIN -->", "<!-- SEEDED-TABLE-END -->"
+
+
+def cell(x, n):
+    x = " ".join(str(x or "").split()).replace("|", "/")
+    return x if len(x) <= n else x[: n - 1].rstrip() + "…"
+
+
+def table():
+    rows = ["| id | breaks | change (author's summary, shortened) | needs | detected by (quick tier) |", "|---|---|---|---|---|"]
+    n = det = 0
+    for d in sorted(glob.glob(os.path.join(ROOT, "seeded", "*"))):
+        m = json.load(open(os.path.join(d, "meta.json")))
+        by = m.get("detected_by") or []
+        n += 1
+        det += bool(by)
+        rows.append("| %s | %s | %s | %s | %s |" % (
+            os.path.basename(d), m.get("breaks_property"), cell(m.get("summary"), 170),
+            cell(m.get("needs_to_manifest"), 150), ", ".join(by) or "**missed**"))
+    rows.append("")
+    rows.append("%d confirmed changes, %d detected by at least one quick check, %d missed." % (n, det, n - det))
+    return "\n".join(rows)
+
+
+if __name__ == "__main__":
+    t = table()
+    if "--update" in sys.argv:
+        p = os.path.join(ROOT, "DESIGN.md")
+        s = open(p).read()
+        i, j = s.index(BEGIN) + len(BEGIN), s.index(END)
+        open(p, "w").write(s[:i] + "\n" + t + "\n" + s[j:])
+    else:
+        print(t)
